@@ -315,7 +315,7 @@ def load_module_from_file_object(
                 # release. That is why there is the test on the magic value rather than
                 # PYTHON_VERSION, although PYTHON_VERSION would probably work.
                 if (
-                    (3200 <= magic_int < 20121)
+                    (3210 <= magic_int < 20121)
                     and version >= (1, 5)
                     or magic_int in PYPY3_MAGICS
                 ):
